@@ -757,3 +757,50 @@ func ScopedInsertions(fn *ssa.Function) (ok bool, why string, n int) {
 	}
 	return true, fmt.Sprintf("%d insertion(s), each undone before the function returns", len(inserts)), len(inserts)
 }
+
+// GuardedCall checks the in-use-set idiom for one call: every path to a call of `callee` in fn passes S.Add(k), and
+// a test S.Has(k) on a set of the same type keeps control away from the call when it holds.
+func GuardedCall(p *Prog, fn *ssa.Function, calleeName string) (bool, string) {
+	var calls []ssa.Instruction
+	var adds, has []*ssa.Call
+	Instrs(fn, func(in ssa.Instruction) {
+		if c, ok := in.(*ssa.Call); ok {
+			if callee := c.Call.StaticCallee(); callee != nil && callee.Name() == calleeName {
+				calls = append(calls, in)
+			}
+			if _, _, ok := setCall(in, "Add"); ok {
+				adds = append(adds, c)
+			}
+			if _, _, ok := setCall(in, "Has"); ok {
+				has = append(has, c)
+			}
+		}
+	})
+	if len(calls) == 0 {
+		return false, "no call of " + calleeName
+	}
+	isAdd := func(in ssa.Instruction) bool {
+		for _, a := range adds {
+			if in == ssa.Instruction(a) {
+				return true
+			}
+		}
+		return false
+	}
+	for _, c := range calls {
+		c := c
+		if ok, _ := MustPassThrough(fn, isAdd, func(in ssa.Instruction) bool { return in == c }); !ok {
+			return false, fmt.Sprintf("the call of %s at %s is reachable on a path that records nothing in an in-use set", calleeName, p.Pos(c.Pos()))
+		}
+		excluded := false
+		for _, h := range has {
+			if !ForwardReach(fn.Blocks[0], map[ssa.Value]bool{h: true}, nil)[c.Block()] {
+				excluded = true
+			}
+		}
+		if !excluded {
+			return false, fmt.Sprintf("no membership test keeps control away from the call of %s at %s when the key is already in use", calleeName, p.Pos(c.Pos()))
+		}
+	}
+	return true, fmt.Sprintf("%d call(s) of %s, each preceded by an insertion into the in-use set and excluded when the key is already in it", len(calls), calleeName)
+}
